@@ -235,6 +235,19 @@ def routing_history(rng, prof):
                     g.publish(pubr, qos=0, ack_off=True)
                 g.ops.append(op("stall", k=g.k(c), kind="off"))
                 g.ops.append(op("ping", k=g.k(c)))
+        elif a == "size_sweep":
+            # a subscriber with a Maximum Packet Size takes a run of messages whose sizes step through the limit byte by byte
+            live = [x for x in clients if g.k(x)]
+            if len(live) >= 2:
+                c = rng.choice(live)
+                pubr = rng.choice([x for x in live if x != c])
+                mps = rng.choice([40, 60])
+                f = rng.choice([["a"], ["a", "b"], ["a", "b", "c"]])
+                g.connect(c, v=5, mps=mps, clean=True)
+                g.ops.append(op("subscribe", k=g.k(c), pid=g.pid(g.k(c)), filters=[dict(f=f, qos=0, nl=False, rap=False, rh=0)]))
+                g.subs.setdefault(c, []).append(f)
+                for pad in range(mps - 30, mps - 7):
+                    g.ops.append(op("publish", k=g.k(pubr), t=f, m=g.msg(), qos=0, pad=pad))
         elif a == "foreign_unsub":
             # a client unsubscribes from a share filter it does not hold: same filter path as somebody's shared
             # subscription, another group (or its own id in that group) - nobody else's subscription may be affected
